@@ -359,6 +359,10 @@ class FormulaGrader(ItemGrader, MathMixin):
         # But the answer we're testing against might only merit partial credit.
         for result in results:
             result['grade_decimal'] *= answer['grade_decimal']
+            if result['ok'] is not True:
+                # Keep 'ok' consistent with the reduced grade (eg, partial credit
+                # from the comparer on an answer that is worth nothing)
+                result['ok'] = self.grade_decimal_to_ok(result['grade_decimal'])
         consolidated = self.consolidate_results(results, answer, self.config['failable_evals'])
 
         return consolidated, functions_used
